@@ -209,7 +209,13 @@ def make(case):
             j = ctx.choose(f"target{step}", len(targets))
             path, LT = targets[j]
             ctx.inputs["assigned"].append(".".join(path))
-            lv, rv = sym_value(ctx, LT, L, f"a{step}", member_type(path))
+            short = False
+            if LT[0] == "arr" and LT[1][0] == "char" and LT[2] > 1 and len(path) == 1 and ctx.choose(f"short{step}", 2) == 1:
+                # fewer bytes than the array holds: the member shows new bytes followed by the old tail
+                short = True
+                lv = rv = ctx.bytes(f"a{step}s", LT[2] - 1)
+            else:
+                lv, rv = sym_value(ctx, LT, L, f"a{step}", member_type(path))
             # the top-level member that carries the write, and its updated reference value
             ref = H.ref_parser(ctx, cfg)
             cur, _ = ref.parse(T, buf, 0)
@@ -232,6 +238,15 @@ def make(case):
                 for name in path[:-1]:
                     obj = getattr(obj, name)
                 assign(obj, path[-1], lv)
+            elif len(path) == 1 and short:
+                assign(u, top, lv)
+                ctx.observe(f"step{step}", top + " (short)")
+                if failed[0]:
+                    ctx.check(f"assigning {top} works", False, failed[0])
+                    return
+                buf = [rv[i] if i < len(rv) else buf[i] for i in range(size)]
+                check_views(ctx, u, buf, f"after short {top}")
+                continue
             elif len(path) == 1:
                 newval = rv
                 assign(u, top, lv)
